@@ -174,6 +174,141 @@ def check(ctx):
                 ctx.fail("not every underlier of a derivative is simulated on the grid of the current maturity", case | {"maturity": kk * dtm},
                          key="simulate:multi-underlier:grid", detail={"shapes": shapes, "expected_points": sorted(want)})
                 break
+    # ---------- lower boundary: maturities shorter than one step, down to M = 0 (a grid with a single time point)
+    from pfhedge.features import Moneyness, TimeToMaturity
+    SHORT_PRIMS = [x for x in PRIMS if x != "RoughBergomiStock"]     # (rough Bergomi cannot generate a single point: raises)
+    for it in range(48 if ctx.tier == "quick" else 600):
+        den = g.choice(DENS)
+        dt = 1 / den if g.chance(0.75) else g.choice([0.1, 0.01, 0.05, 0.2, 0.3])
+        frac = g.choice([0.0, 0.0, 0.0, 1e-14, 0.25, 0.5, 0.9])
+        m = frac * dt
+        prim = g.choice(SHORT_PRIMS)
+        opt = g.choice(OPTS)
+        call = g.chance(0.6)
+        strike = g.choice([0.5, 1.0, 1.25, 2.0])
+        s0 = g.choice([0.75, 1.0, 1.25, 1.5, 2.0])
+        dtype = g.choice([None, torch.float64])
+        n_paths = g.choice([1, 2, 3])
+        case = {"short_maturity": True, "M": m, "dt": dt, "frac": frac, "primary": prim, "option": opt, "call": call,
+                "strike": strike, "init_price": s0, "dtype": str(dtype), "n_paths": n_paths}
+        p = make_primary(I, torch, prim, dt, dtype)
+        d = getattr(I, opt)(p, call=call, strike=strike, maturity=m)
+        rate = prim in ("CIRRate", "VasicekRate")
+        init = None if rate else (s0,) + tuple(p.default_init_state[1:])
+        st, v, _ = call_impl(d.simulate, n_paths=n_paths, init_state=init)
+        ctx.case(case, nontrivial=True, tag="short_maturity")
+        ctx.stats[f"short_maturity:frac={frac}"] += 1
+        ctx.traces += 1
+        if st != "ok":
+            ctx.fail("derivative.simulate raised for a maturity shorter than one step", case, key=f"short-maturity:{prim}:raise", detail=v)
+            continue
+        shapes = {name: tuple(b.shape) for name, b in p.named_buffers()}
+        acc = expected_points(m, dt)
+        T = p.spot.size(1)
+        if any(s != (n_paths, T) for s in shapes.values()) or T not in acc:
+            ctx.fail("number of simulated time points differs from ceil(M/dt)+1 for a maturity shorter than one step (M = 0: a single point)",
+                     case | {"shapes": str(shapes), "expected": sorted(acc)}, key="short-maturity:n_steps")
+            continue
+        if rate:
+            continue
+        with torch.no_grad():
+            ttm = d.time_to_maturity(None)
+            ttm_last = d.time_to_maturity(T - 1)
+            pay = d.payoff()
+            fs = [tuple(f_.of(d).get(None).shape) for f_ in (Moneyness(), TimeToMaturity())]
+        if tuple(ttm.shape) != (n_paths, T) or tuple(pay.shape) != (n_paths,) or any(s != (n_paths, T, 1) for s in fs):
+            ctx.fail("payoff / time-to-maturity / features do not use the simulated grid (maturity shorter than one step)", case,
+                     key="short-maturity:grid", detail={"ttm": list(ttm.shape), "features": fs})
+            continue
+        tt = ttm.to(torch.float64).tolist()
+        eps = 4 * 2.0 ** (-52 if p.spot.dtype == torch.float64 else -23) * max(1e-300, (T - 1) * dt)
+        if any(abs(row[i] - (T - 1 - i) * dt) > eps for row in tt for i in range(T)) or any(row[-1] != 0.0 for row in tt) \
+                or any(x != 0.0 for x in ttm_last.reshape(-1).tolist()):
+            ctx.fail("time to maturity differs from (T-1-i)*dt / is not exactly zero at the last step (maturity shorter than one step)", case,
+                     key="short-maturity:time_to_maturity", detail={"ttm": tt[0]})
+        if T == 1:
+            # the derivative matures at once: its payoff is the intrinsic value at the initial price
+            first = p.spot[:, 0].to(torch.float64).tolist()
+            if opt in ("EuropeanOption", "LookbackOption"):
+                exp = [max(x - strike, 0.0) if call else max(strike - x, 0.0) for x in first]
+            else:
+                exp = [float(x >= strike) if call else float(x <= strike) for x in first]
+            if pay.to(torch.float64).tolist() != exp:
+                ctx.fail("the payoff of a derivative of maturity 0 is not the intrinsic value at the initial price", case,
+                         key="short-maturity:payoff", detail={"payoff": pay.tolist(), "expected": exp, "initial": first})
+    # ---------- a listed derivative (hedging instrument) shares its underlier: whichever object the underlier was simulated through
+    #            last, the listed price series / its Spot feature / hedges computed with it live on the grid of THAT simulation
+    from pfhedge.features import Spot
+    LPRIMS = ["BrownianStock", "HestonStock", "MertonJumpStock", "KouJumpStock", "LocalVolatilityStock"]
+    for it in range(30 if ctx.tier == "quick" else 400):
+        dt = g.choice([1 / 250, 1 / 365, 1 / 12, 0.1, 0.01])
+        prim = g.choice(LPRIMS)
+        p = make_primary(I, torch, prim, dt, None)
+        a, b = g.choice([1.0, 0.5, 2.0]), g.choice([0.0, 1.0, 0.25])
+
+        def pricer(dd, a=a, b=b):
+            return dd.ul().spot * a + b * dd.time_to_maturity()
+        k0 = g.randint(1, 30)
+        listed = getattr(I, g.choice(OPTS))(p, maturity=k0 * dt)
+        listed.list(pricer, cost=g.choice([0.0, 1e-4]))
+        k1 = g.choice([k for k in range(1, 31) if k != k0])
+        other = getattr(I, g.choice(OPTS))(p, maturity=k1 * dt)
+        seq = ["listed"] + [g.choice(["other", "other", "underlier", "listed"]) for _ in range(g.choice([1, 2, 3]))]
+        case = {"listed_hedge": True, "primary": prim, "dt": dt, "listed_maturity": k0 * dt, "other_maturity": k1 * dt, "sequence": []}
+        ctx.case(case | {"sequence": seq}, True, tag="listed_hedge")
+        ctx.traces += 1
+        for route in seq:
+            n_paths = g.choice([1, 2, 3])
+            if route == "underlier":
+                mat = g.randint(1, 30) * dt
+                st, v, _ = call_impl(p.simulate, n_paths=n_paths, time_horizon=mat)
+                hedged = None
+            else:
+                hedged = listed if route == "listed" else other
+                mat = hedged.maturity
+                st, v, _ = call_impl(hedged.simulate, n_paths=n_paths)
+            case["sequence"].append({"through": route, "maturity": mat, "n_paths": n_paths})
+            ctx.stats[f"listed_hedge:through={route}"] += 1
+            if st != "ok":
+                ctx.fail("simulate raised", case, key=f"simulate:{prim}:raise", detail=v)
+                break
+            want = expected_points(mat, dt)
+            T = p.spot.size(1)
+            if tuple(p.spot.shape) != (n_paths, T) or T not in want:
+                ctx.fail("number of simulated time points differs from ceil(M/dt)+1 when an underlier is simulated again", case,
+                         key="listed:underlier-grid", detail={"shape": list(p.spot.shape), "expected_points": sorted(want)})
+                break
+            with torch.no_grad():
+                r_spot = call_impl(lambda: listed.spot)[:2]
+                r_feat = call_impl(Spot().of(listed).get, None)[:2]
+                r_at = call_impl(Spot().of(listed).get, T - 1)[:2]
+            got = {"listed.spot": r_spot[1].shape if r_spot[0] == "ok" else r_spot[1],
+                   "Spot.get(None)": r_feat[1].shape if r_feat[0] == "ok" else r_feat[1],
+                   "Spot.get(T-1)": r_at[1].shape if r_at[0] == "ok" else r_at[1]}
+            if {k_: (tuple(v_) if not isinstance(v_, str) else v_) for k_, v_ in got.items()} != \
+                    {"listed.spot": (n_paths, T), "Spot.get(None)": (n_paths, T, 1), "Spot.get(T-1)": (n_paths, 1, 1)}:
+                ctx.fail("the price series of a listed derivative / its Spot feature is not on the grid of the last simulation of the shared underlier",
+                         case, key="listed:grid-after-resimulation", detail={"got": str(got), "grid": [n_paths, T]})
+                break
+            with torch.no_grad():
+                fresh = pricer(listed)
+            if not torch.equal(r_spot[1], fresh):
+                ctx.fail("the price series of a listed derivative is not its pricer applied to the current paths of the shared underlier", case,
+                         key="listed:price-after-resimulation", detail={"spot": r_spot[1][0].tolist(), "pricer": fresh[0].tolist()})
+                break
+            if hedged is None:
+                continue
+            bad = None
+            for feats in (["time_to_maturity"], ["time_to_maturity", "prev_hedge"]):
+                with torch.no_grad():
+                    sth, hv, _ = call_impl(Hedger(Naked(), feats).compute_hedge, hedged, hedge=[listed])
+                if sth != "ok" or tuple(hv.shape) != (n_paths, 1, T):
+                    bad = {"features": feats, "hedge": hv if sth != "ok" else list(hv.shape), "grid": [n_paths, T]}
+                    break
+            if bad:
+                ctx.fail("a hedge computed with a listed derivative as the hedging instrument is not on the grid of the derivative just simulated",
+                         case, key="listed:hedge-grid", detail=bad)
+                break
     # ---------- time_to_maturity replica (float64 instruments: bit-exact)
     treqs, tmeta = [], []
     for _ in range(150 if ctx.tier == "quick" else 2000):
@@ -222,4 +357,6 @@ def check(ctx):
     return ctx.finish(
         rule="(M, dt) sweeps: dt in {1/250,1/365,1/12,1/10,1/252,1/100,1/52,1/4,1/8,1/360,0.1,0.01,0.05,0.2,0.3}, M = k/den, k*dt, round(k*dt,10) "
              "and non-integer multiples, k<=120, all 8 primaries x 4 option types; time_to_maturity for all/one step incl. negative and "
-             "wrapped indices; every case is non-trivial (T>=2 for ttm); distinct = sha1 of canonical case")
+             "wrapped indices; maturities shorter than one step (M = 0, 1e-14 dt, fractions of dt) on 7 primaries with payoff = intrinsic value at T = 1; "
+             "a listed derivative sharing its underlier with a derivative of another maturity, re-simulated through either / the underlier, "
+             "price series / Spot feature / hedges on the current grid; every case is non-trivial (T>=2 for ttm); distinct = sha1 of canonical case")
